@@ -401,6 +401,7 @@ def run(tier):
                         "server-side acceptance code depends on it" % (rec, fld, why), file="matrixssl/tls13Resume.c", line=1)
         res.instance("C14.R4", "%s.%s consulted at %s" % (rec, fld, where[:3]), bool(where), finding=f)
     rule_R5(res, prog, cg)
+    rule_R6(res, prog)
     rule_R1e(res, prog)
     return res.finish()
 
@@ -584,3 +585,59 @@ def rule_R5(res, prog, cg):
                         res.instance("C14.R5", "matrixUpdateSession: secret copied into the entry only under id equality", okc, finding=f_)
     if n_w < 3:
         raise AnalysisBroken("C14.R5: wipe / copy sites of the cached master secret not found")
+
+
+def rule_R6(res, prog):
+    """An altered ticket never resumes: the MAC that matrixUnlockSessionTicket recomputes covers the ticket from its first
+    byte (key name, IV, encrypted state) up to the transmitted MAC - the data argument of the HMAC update is the input
+    pointer itself and the length is the input length minus exactly the number of bytes compared afterwards."""
+    from sa import cfgutil as cu
+    from sa.pp import pp
+    rid = "C14.R6"
+    res.rule(rid, "TLS <=1.2 ticket: the recomputed MAC covers the ticket from its first byte up to the transmitted MAC")
+    fn = prog.fn("matrixUnlockSessionTicket")
+    rd = cu.reaching_defs(fn)
+    pin, plen = fn.params[1], fn.params[2]
+
+    def resolves_to_param(e, bid, idx, param, depth=0):
+        e = strip(e)
+        while e is not None and e.get("k") == "cast":
+            e = strip(e["e"])
+        if e is None or e.get("k") != "var" or depth > 4:
+            return False
+        if e.get("id") == param.get("id"):
+            ds = cu.defs_at(fn, rd, bid, idx, e["id"])
+            return all(d[2] == "param" for d in ds)
+        ds = cu.defs_at(fn, rd, bid, idx, e.get("id"))
+        return bool(ds) and all(d[2] in ("decl", "assign") and resolves_to_param(d[3], d[0], d[1], param, depth + 1) for d in ds)
+    # length of the comparison that decides
+    cmpK = set()
+    for b, ln, c in fn.calls():
+        if c.get("fn") in ("memcmp", "__builtin_memcmp", "memcmpct") and len(c.get("a", [])) >= 3:
+            k = strip(c["a"][2])
+            if k is not None and k.get("k") == "int":
+                cmpK.add(k["v"])
+    sites = cu.find_sites(fn, lambda n: n.get("k") == "call" and (n.get("fn") or "").startswith("psHmac") and
+                          (n.get("fn") or "").endswith("Update") and len(n.get("a", [])) >= 3)
+    if not sites or not cmpK:
+        raise AnalysisBroken("C14.R6: matrixUnlockSessionTicket: HMAC update / comparison not found")
+    for (bid, idx, ln, c) in sites:
+        data_ok = resolves_to_param(c["a"][1], bid, idx, pin)
+        L = strip(c["a"][2])
+        while L is not None and L.get("k") == "cast":
+            L = strip(L["e"])
+        len_ok = False
+        if L is not None and L.get("k") == "bin" and L["op"] == "-" and (strip(L["r"]) or {}).get("k") == "int":
+            len_ok = resolves_to_param(L["l"], bid, idx, plen) and strip(L["r"])["v"] in cmpK
+        ok = data_ok and len_ok
+        f_ = None
+        if not ok:
+            f_ = Finding(PROP, rid, fn.name, "ticket MAC does not cover the whole ticket",
+                         "%s:%s matrixUnlockSessionTicket(): %s(ctx, %s, %s): %s - bytes outside the MAC (key name / IV) can be altered "
+                         "by the client: flipping IV bits flips the same bits of the first decrypted block (version, cipher suite, "
+                         "extended-master-secret flag, master secret) and the ticket still verifies" % (
+                             fn.relfile, ln, c["fn"], pp(c["a"][1])[:30], pp(c["a"][2])[:40],
+                             ("the data argument is not the ticket's first byte" if not data_ok else
+                              "the length is not <input length> - <compared MAC length %s>" % sorted(cmpK))), file=fn.relfile, line=ln)
+        res.instance(rid, "matrixUnlockSessionTicket:%s %s(%s, %s)" % (ln, c["fn"], pp(c["a"][1])[:20], pp(c["a"][2])[:30]), ok, finding=f_)
+    res.floor(rid, 1)
